@@ -67,6 +67,38 @@ type fnState struct {
 	lockSeen bool
 	file     string
 	inserted int
+	parent   bool            // the function spawns the reproduction goroutines (it calls verifSpawn)
+	chans    map[string]bool // channels made in the function
+}
+
+// parentInfo tells whether a function body calls verifSpawn and which identifiers it binds to make(chan ...).
+func parentInfo(body *ast.BlockStmt) (bool, map[string]bool) {
+	parent := false
+	chans := map[string]bool{}
+	ast.Inspect(body, func(n ast.Node) bool {
+		switch x := n.(type) {
+		case *ast.FuncLit:
+			return false
+		case *ast.CallExpr:
+			if id, ok := x.Fun.(*ast.Ident); ok && id.Name == "verifSpawn" {
+				parent = true
+			}
+		case *ast.AssignStmt:
+			for i, r := range x.Rhs {
+				if call, ok := r.(*ast.CallExpr); ok && i < len(x.Lhs) {
+					if f, ok := call.Fun.(*ast.Ident); ok && f.Name == "make" && len(call.Args) > 0 {
+						if _, ok := call.Args[0].(*ast.ChanType); ok {
+							if id, ok := x.Lhs[i].(*ast.Ident); ok {
+								chans[id.Name] = true
+							}
+						}
+					}
+				}
+			}
+		}
+		return true
+	})
+	return parent, chans
 }
 
 func isCallTo(stmt ast.Stmt, prefix string) bool {
@@ -108,10 +140,52 @@ func yieldStmt(st *fnState, pos token.Pos) ast.Stmt {
 		Args: []ast.Expr{&ast.BasicLit{Kind: token.STRING, Value: strconv.Quote(fmt.Sprintf("s:%s:%d", st.file, line))}}}}
 }
 
+// waitStmts returns the statements to insert before s in a function that spawns the reproduction goroutines (the
+// parent): the parent's blocking operations become scheduling points. Before wg.Wait() the scheduler runs the tasks
+// until all have ended; before a receive from a channel made in this function it runs them one step at a time until
+// the channel holds a value. The parent thereby proceeds exactly as far as a real execution could, and returns early
+// exactly when the code lets it (tasks may then still be parked: goroutines that outlive the call).
+func (st *fnState) waitStmts(s ast.Stmt) []ast.Stmt {
+	if !st.parent {
+		return nil
+	}
+	var res []ast.Stmt
+	yield := func(tag string) ast.Stmt {
+		st.inserted++
+		return &ast.ExprStmt{X: &ast.CallExpr{Fun: ast.NewIdent("verifYield"), Args: []ast.Expr{&ast.BasicLit{Kind: token.STRING, Value: strconv.Quote(tag)}}}}
+	}
+	seen := map[string]bool{}
+	ast.Inspect(s, func(n ast.Node) bool {
+		switch x := n.(type) {
+		case *ast.FuncLit, *ast.BlockStmt:
+			return n == s
+		case *ast.CallExpr:
+			if sel, ok := x.Fun.(*ast.SelectorExpr); ok && sel.Sel.Name == "Wait" {
+				if id, ok := sel.X.(*ast.Ident); ok && id.Name == "wg" && !seen["wg"] {
+					seen["wg"] = true
+					res = append(res, yield("wait:all"))
+				}
+			}
+		case *ast.UnaryExpr:
+			if id, ok := x.X.(*ast.Ident); ok && x.Op == token.ARROW && st.chans[id.Name] && !seen[id.Name] {
+				seen[id.Name] = true
+				// for len(ch) == 0 { verifYield("wait:recv") }
+				res = append(res, &ast.ForStmt{
+					Cond: &ast.BinaryExpr{X: &ast.CallExpr{Fun: ast.NewIdent("len"), Args: []ast.Expr{ast.NewIdent(id.Name)}}, Op: token.EQL, Y: &ast.BasicLit{Kind: token.INT, Value: "0"}},
+					Body: &ast.BlockStmt{List: []ast.Stmt{yield("wait:recv")}},
+				})
+			}
+		}
+		return true
+	})
+	return res
+}
+
 func (st *fnState) list(stmts []ast.Stmt) []ast.Stmt {
 	var out []ast.Stmt
 	for _, s := range stmts {
 		st.children(s)
+		out = append(out, st.waitStmts(s)...)
 		skip := !st.started || st.lockSeen || isCallTo(s, "verif")
 		if _, isDefer := s.(*ast.DeferStmt); isDefer {
 			skip = true
@@ -205,6 +279,7 @@ func main() {
 			}
 			if touchesSharedState(fd.Body) {
 				st := &fnState{started: true, file: base}
+				st.parent, st.chans = parentInfo(fd.Body)
 				fd.Body.List = st.list(fd.Body.List)
 				n += st.inserted
 			} else {
